@@ -119,8 +119,8 @@ func c04RuneSetLit(e ast.Expr) ([]int, bool) {
 // ---------- range checks compiled to Gallina ----------
 
 type c04Vars struct {
-	index, level, slice string // Go names of the index parameter, the level parameter, the list parameter
-	levelPlus           bool   // the level was incremented just before this condition
+	index, level, slice string          // Go names of the index parameter, the level parameter, the list parameter
+	levelPlus           bool            // the level was incremented just before this condition
 	seen                map[string]bool // which tracked integers the compiled condition mentions
 }
 
@@ -279,27 +279,60 @@ func c04CollectChecks(fd *ast.FuncDecl, v c04Vars, lam string) (c04Checks, error
 	var out c04Checks
 	var firstErr error
 	var walkBlock func(b *ast.BlockStmt)
-	visitIf := func(is *ast.IfStmt, incBefore bool) {
-		vv := v
-		vv.levelPlus = incBefore
-		vv.seen = map[string]bool{}
-		term, rel, err := c04Compile(is.Cond, vv)
-		if err != nil || !rel {
-			return // a condition about something else (err != nil, len(k) > 0, ...)
-		}
+	classify := func(term string, seen map[string]bool, errBody bool) {
 		txt := lam + " " + term
-		mentionsLevel := vv.seen["level"]
-		mentionsLen := vv.seen["len"]
 		switch {
-		case mentionsLevel:
+		case seen["level"]:
 			out.levelGuards = append(out.levelGuards, txt)
-		case mentionsLen:
+		case seen["len"]:
 			out.lenConds = append(out.lenConds, txt)
-		case c04ReturnsError(is.Body):
+		case errBody:
 			out.guards = append(out.guards, txt)
 		default:
 			out.others = append(out.others, txt)
 		}
+	}
+	visitIf := func(is *ast.IfStmt, incBefore bool) {
+		vv := v
+		vv.levelPlus = incBefore
+		vv.seen = map[string]bool{}
+		if term, rel, err := c04Compile(is.Cond, vv); err == nil {
+			if rel {
+				classify(term, vv.seen, c04ReturnsError(is.Body))
+			}
+			return
+		}
+		// a compound condition with conjuncts / disjuncts about something else (list[i] != nil,
+		// err != nil, ...): every integer comparison over the tracked variables in it is an atom
+		// of its own, with the polarity it occurs in; the rest is not a range check
+		var atoms func(e ast.Expr, neg bool)
+		atoms = func(e ast.Expr, neg bool) {
+			switch x := c04Paren(e).(type) {
+			case *ast.UnaryExpr:
+				if x.Op == token.NOT {
+					atoms(x.X, !neg)
+					return
+				}
+			case *ast.BinaryExpr:
+				if x.Op == token.LAND || x.Op == token.LOR {
+					atoms(x.X, neg)
+					atoms(x.Y, neg)
+					return
+				}
+			}
+			va := v
+			va.levelPlus = incBefore
+			va.seen = map[string]bool{}
+			term, rel, err := c04Compile(e, va)
+			if err != nil || !rel {
+				return
+			}
+			if neg {
+				term = "(negb " + term + ")"
+			}
+			classify(term, va.seen, c04ReturnsError(is.Body))
+		}
+		atoms(is.Cond, false)
 	}
 	walkStmts := func(list []ast.Stmt) {
 		inc := false
@@ -414,7 +447,10 @@ func c04TypedAtom(fset *token.FileSet, e ast.Expr, val string) string {
 		id, ok := ce.Fun.(*ast.Ident)
 		return ok && id.Name == "len" && isVal(ce.Args[0])
 	}
-	isZero := func(e ast.Expr) bool { bl, ok := c04Paren(e).(*ast.BasicLit); return ok && bl.Kind == token.INT && bl.Value == "0" }
+	isZero := func(e ast.Expr) bool {
+		bl, ok := c04Paren(e).(*ast.BasicLit)
+		return ok && bl.Kind == token.INT && bl.Value == "0"
+	}
 	switch x := c04Paren(e).(type) {
 	case *ast.BinaryExpr:
 		switch {
